@@ -318,12 +318,26 @@ To translate_map_point(From f) { return static_cast<To>(f); }
 template<> inline
 std::int8_t translate_map_point<float,std::int8_t>(float f) { return f != 0; }
 
+// swap bytes of a 2- or 4-byte value read from a file with different byte order
+template<typename T>
+void swap_value_bytes(T* value) {
+  if (sizeof(T) == 2)
+    swap_two_bytes(value);
+  else if (sizeof(T) == 4)
+    swap_four_bytes(value);
+}
+
+// The byte order is a property of the values in the file (TFile),
+// so they are swapped before being converted to TMem.
 template<typename TFile, typename TMem>
-void read_data(AnyStream& f, std::vector<TMem>& content) {
+void read_data(AnyStream& f, std::vector<TMem>& content, bool swap_bytes) {
   if (std::is_same<TFile, TMem>::value) {
     size_t len = content.size();
     if (!f.read(content.data(), sizeof(TMem) * len))
       fail("Failed to read all the data from the map file.");
+    if (swap_bytes && sizeof(TMem) > 1)
+      for (TMem& value : content)
+        swap_value_bytes(&value);
   } else {
     constexpr size_t chunk_size = 64 * 1024;
     std::vector<TFile> work(chunk_size);
@@ -331,6 +345,9 @@ void read_data(AnyStream& f, std::vector<TMem>& content) {
       size_t len = std::min(chunk_size, content.size() - i);
       if (!f.read(work.data(), sizeof(TFile) * len))
         fail("Failed to read all the data from the map file.");
+      if (swap_bytes && sizeof(TFile) > 1)
+        for (size_t j = 0; j < len; ++j)
+          swap_value_bytes(&work[j]);
       for (size_t j = 0; j < len; ++j)
         content[i+j] = translate_map_point<TFile,TMem>(work[j]);
     }
@@ -366,27 +383,18 @@ void Ccp4<T>::read_ccp4_stream(AnyStream& f, const std::string& path) {
   grid.data.resize(grid.point_count());
   int mode = header_i32(4);
   if (mode == 0)
-    impl::read_data<std::int8_t>(f, grid.data);
+    impl::read_data<std::int8_t>(f, grid.data, !same_byte_order);
   else if (mode == 1)
-    impl::read_data<std::int16_t>(f, grid.data);
+    impl::read_data<std::int16_t>(f, grid.data, !same_byte_order);
   else if (mode == 2)
-    impl::read_data<float>(f, grid.data);
+    impl::read_data<float>(f, grid.data, !same_byte_order);
   else if (mode == 6)
-    impl::read_data<std::uint16_t>(f, grid.data);
+    impl::read_data<std::uint16_t>(f, grid.data, !same_byte_order);
   else
     fail("Mode " + std::to_string(mode) + " is not supported "
          "(only 0, 1, 2 and 6 are supported).");
   //if (std::fgetc(f) != EOF)
   //  fail("The map file is longer then expected.");
-
-  if (!same_byte_order) {
-    if (sizeof(T) == 2)
-      for (T& value : grid.data)
-        swap_two_bytes(&value);
-    else if (sizeof(T) == 4)
-      for (T& value : grid.data)
-        swap_four_bytes(&value);
-  }
 }
 
 template<typename T>
